@@ -377,6 +377,28 @@ func TestC17(t *testing.T) {
 	}
 	runTable("eastern_dst_zones_and_fractions_after_midnight", "c17.datetime", east, checkDTFacts)
 	runTable("eastern_coherence_and_antisymmetry", "c17.coherence", eastCoh, func(c DTCase) (*Violation, dtFacts) { return checkDTCoherence(c), dtFacts{class: "relation"} })
+	// (D50) zone-less timestamps a fraction of a second before a change of the zone's offset, cast with a
+	// precision: the precision is that of the result, so the cast rounds the instant and is at most half a
+	// unit away from the cast without a precision
+	var edge []DTCase
+	for _, x := range []struct{ zone, at string }{
+		{"America/New_York", "2023-11-05 01:59:59"}, {"America/New_York", "2023-03-12 01:59:59"}, {"America/New_York", "2023-11-05 00:59:59"}, {"America/New_York", "2023-03-12 02:59:59"},
+		{"Australia/Sydney", "2023-10-01 01:59:59"}, {"Australia/Sydney", "2023-04-02 02:59:59"}, {"Pacific/Auckland", "2023-09-24 01:59:59"}, {"Pacific/Auckland", "2023-04-02 02:59:59"},
+		{"Pacific/Apia", "2011-12-29 23:59:59"}, {"Europe/London", "2023-03-26 00:59:59"}, {"Europe/London", "2023-10-29 01:59:59"}, {"UTC", "2023-11-05 01:59:59"}, {"+05:30", "2023-11-05 23:59:59"},
+	} {
+		for _, frac := range []string{".7", ".96", ".4999996", ".5", ".9999996", ".49", ""} {
+			for p := 0; p <= 7; p++ {
+				a := strings.Replace(x.at, " ", "T", p%2) + frac
+				edge = append(edge, DTCase{Path: fmt.Sprintf("$a.timestamp_tz(%d)", p), A: a, TZ: true, Zone: x.zone},
+					DTCase{Path: fmt.Sprintf("$a.timestamp_tz(%d).string()", p), A: a, TZ: true, Zone: x.zone},
+					DTCase{Path: fmt.Sprintf("$a.timestamp_tz(%d) >= $a.timestamp_tz()", p), A: a, TZ: true, Zone: x.zone},
+					DTCase{Path: fmt.Sprintf("$a.timestamp_tz(%d).timestamp().string()", p), A: a, TZ: true, Zone: x.zone},
+					DTCase{Path: fmt.Sprintf("$a.timestamp(%d).timestamp_tz().string()", p), A: a, TZ: true, Zone: x.zone},
+					DTCase{Path: fmt.Sprintf("$a.datetime().timestamp_tz(%d)", p), A: a, TZ: true, Zone: x.zone})
+			}
+		}
+	}
+	runTable("precision_casts_next_to_offset_changes", "c17.datetime", edge, checkDTFacts)
 	// a datetime value converts to a string that converts back to an equal value
 	var back []DTCase
 	for _, a := range append(append([]string{}, dtStrings[:45]...), dtEast...) {
